@@ -11,11 +11,13 @@ here="$(cd "$(dirname "${BASH_SOURCE[0]}")/.." && pwd)"
 wt="$d/repo"
 out="$d/verif_out"; rm -rf "$out"; mkdir -p "$out/evidence" "$out/replays"
 git -C "$wt" checkout -q -- . && git -C "$wt" clean -fdq -e __pycache__ >/dev/null
+# scratch worktrees follow /repo's HEAD (fix: commits made since the agent started)
+git -C "$wt" checkout -q --detach "$(git -C /repo rev-parse HEAD)"
 echo "== demo without change"
 (cd /tmp && /venv/bin/python "$d/demo.py" "$wt" >"$out/demo_without.txt" 2>&1; echo "exit=$?")
 git -C "$wt" apply "$d/patch.diff" || { echo "PATCH DOES NOT APPLY"; exit 3; }
 echo "== suite with change"
-(cd "$wt" && /venv/bin/python -m pytest -q -p no:cacheprovider --timeout=900 --continue-on-collection-errors 2>&1 | tail -1)
+(cd "$wt" && /venv/bin/python -m pytest -q -p no:cacheprovider --timeout=900 --continue-on-collection-errors 2>&1 | grep -E "passed|failed" | tail -1)
 echo "== demo with change"
 (cd /tmp && /venv/bin/python "$d/demo.py" "$wt" >"$out/demo_with.txt" 2>&1; echo "exit=$?"; tail -2 "$out/demo_with.txt" | cut -c1-200)
 for id in "$@"; do
